@@ -132,6 +132,28 @@ SPECIAL_FORMS = [
 ]
 
 
+def sheared_bases(forms):
+    out = []
+    for G in forms:
+        if not niggli(G):
+            continue
+        Ga = np.array(G)
+        for (i, j) in itertools.permutations(range(3), 2):
+            for (k, l) in ((k, l) for k in range(-4, 5) for l in range(-2, 3)):
+                if k == 0:
+                    continue
+                U = np.eye(3, dtype=int)
+                U[i, j] = k
+                m = 3 - i - j
+                U[i, m] = l
+                Gs = U @ Ga @ U.T
+                looks = all(4 * Gs[a, b] ** 2 <= Gs[a, a] * Gs[b, b] for a in range(3) for b in range(a + 1, 3))
+                unreduced = any(2 * abs(Gs[a, b]) > min(Gs[a, a], Gs[b, b]) for a in range(3) for b in range(a + 1, 3))
+                if looks and unreduced:
+                    out.append((G, U))
+    return out
+
+
 def impl_events(ctx):
     rng = ctx.rng
     nprng = np.random.default_rng(ctx.seed + 5)
@@ -141,9 +163,19 @@ def impl_events(ctx):
     rng.shuffle(extra)
     forms += extra[: (6 if ctx.quick else 60)]
     n_lat = 0
+    plan = []
     for G in forms:
         for rep in range(2 if ctx.quick else 4):
-            U = np.eye(3, dtype=int) if rep == 0 else random_unimodular(rng, 2 + rep)
+            plan.append((G, np.eye(3, dtype=int) if rep == 0 else random_unimodular(rng, 2 + rep)))
+    # bases that "look reduced" (every inter-axial angle between 60 and 120 degrees) but are not: a long axis
+    # sheared by whole steps of a short one (needle/plate supercells such as a3 = 2a + 4c)
+    sheared = sheared_bases(forms + [[[1, 0, 0], [0, 1, 0], [0, 0, 16]], [[1, 0, 0], [0, 4, 0], [0, 0, 16]],
+                                     [[2, -1, 0], [-1, 2, 0], [0, 0, 24]], [[1, 0, 0], [0, 9, 0], [0, 0, 9]]])
+    rng.shuffle(sheared)
+    plan += sheared[: (8 if ctx.quick else 60)]
+    ctx.extra["sheared_unreduced_bases"] = min(len(sheared), 8 if ctx.quick else 60)
+    for G, U in plan:
+        for rep in (0,):
             Gs = (U @ np.array(G) @ U.T)
             D = rng.choice([2, 4, 6])
             Lr = xtal.lattice_from_gram(G, a=1.7 * D / 2, rng=nprng)
